@@ -4041,7 +4041,7 @@ int32_t parseAuthorityInfoAccess(psPool_t *pool,
             return PS_PARSE_FAIL;
         }
         /* accessMethod. */
-        if (*p++ != ASN_OID)
+        if (p >= authInfoEnd || *p++ != ASN_OID)
         {
             psTraceCrypto("Malformed extension header\n");
             return PS_PARSE_FAIL;
@@ -4068,6 +4068,11 @@ int32_t parseAuthorityInfoAccess(psPool_t *pool,
             return PS_PARSE_FAIL;
         }
         /* accessLocation. */
+        if (p >= authInfoEnd)
+        {
+            psTraceCrypto("AccessDescription without accessLocation\n");
+            return PS_PARSE_FAIL;
+        }
         switch (*p++)
         {
         case (ASN_CONTEXT_SPECIFIC + 6):
@@ -4181,7 +4186,7 @@ KNOWN_EXT:
         return PS_PARSE_FAIL;
     }
     extEnd = p + len;
-    while ((p != extEnd) && *p == (ASN_SEQUENCE | ASN_CONSTRUCTED))
+    while ((p < extEnd) && *p == (ASN_SEQUENCE | ASN_CONSTRUCTED))
     {
         if (getAsnSequence(&p, (uint32) (extEnd - p), &fullExtLen) < 0)
         {
@@ -4233,7 +4238,7 @@ KNOWN_EXT:
             psTraceCrypto("Malformed extension length\n");
             return PS_PARSE_FAIL;
         }
-        if (*p == ASN_BOOLEAN)
+        if (p < extEnd && *p == ASN_BOOLEAN)
         {
             p++;
             if (extEnd - p < 2)
@@ -4241,7 +4246,7 @@ KNOWN_EXT:
                 psTraceCrypto("Error parsing critical id len for cert extension\n");
                 return PS_PARSE_FAIL;
             }
-            if (*p != 1)
+            if (p >= extEnd || *p != 1)
             {
                 psTraceCrypto("Error parsing critical id for cert extension\n");
                 return PS_PARSE_FAIL;
@@ -4250,7 +4255,7 @@ KNOWN_EXT:
             if (*p > 0)
             {
                 /* Officially DER TRUE must be 0xFF, openssl is more lax */
-                if (*p != 0xFF)
+                if (p >= extEnd || *p != 0xFF)
                 {
                     psTraceCrypto("Warning: DER BOOLEAN TRUE should be 0xFF\n");
                 }
@@ -4301,7 +4306,7 @@ KNOWN_EXT:
 /*
                 Have seen some certs that don't include a cA bool.
  */
-            if (*p == ASN_BOOLEAN)
+            if (p < extEnd && *p == ASN_BOOLEAN)
             {
                 if (extEnd - p < 3)
                 {
@@ -4309,7 +4314,7 @@ KNOWN_EXT:
                     return PS_PARSE_FAIL;
                 }
                 p++;
-                if (*p++ != 1)
+                if (p >= extEnd || *p++ != 1)
                 {
                     psTraceCrypto("Error parse BasicConstraints CA bool\n");
                     return PS_PARSE_FAIL;
@@ -4338,7 +4343,7 @@ KNOWN_EXT:
                 sense if cA is true.  If it's missing, there is no limit to
                 the cert path
  */
-            if (*p == ASN_INTEGER)
+            if (p < extEnd && *p == ASN_INTEGER)
             {
                 if (getAsnInteger(&p, (uint32) (extEnd - p),
                         &(extensions->bc.pathLenConstraint)) < 0)
@@ -4387,7 +4392,7 @@ KNOWN_EXT:
                     encipherOnly                        (7),
                     decipherOnly                        (8) }
  */
-            if (*p++ != ASN_BIT_STRING)
+            if (p >= extEnd || *p++ != ASN_BIT_STRING)
             {
                 psTraceCrypto("Error parsing keyUsage extension\n");
                 return PS_PARSE_FAIL;
@@ -4421,7 +4426,7 @@ KNOWN_EXT:
                BIT STRING, which is not included in the length. This is
                an incorrect encoding, but let's be liberal in what we
                accept. */
-            if (*p == 0x00)
+            if (p < extEnd && *p == 0x00)
             {
                 p++;
             }
@@ -4437,7 +4442,7 @@ KNOWN_EXT:
             save = p;
             while (fullExtLen > 0)
             {
-                if (*p++ != ASN_OID)
+                if (p >= extEnd || *p++ != ASN_OID)
                 {
                     psTraceCrypto("Malformed extension header\n");
                     return PS_PARSE_FAIL;
@@ -4517,13 +4522,13 @@ KNOWN_EXT:
             {
                 save = p;
 
-                if (*p == (ASN_CONTEXT_SPECIFIC | ASN_CONSTRUCTED | 0))
+                if (p < extEnd && *p == (ASN_CONTEXT_SPECIFIC | ASN_CONSTRUCTED | 0))
                 {
                     /* permittedSubtrees */
                     p++;
                     nc = 0;
                 }
-                if (*p == (ASN_CONTEXT_SPECIFIC | ASN_CONSTRUCTED | 1))
+                if (p < extEnd && *p == (ASN_CONTEXT_SPECIFIC | ASN_CONSTRUCTED | 1))
                 {
                     /* excludedSubtrees */
                     p++;
@@ -4635,7 +4640,7 @@ KNOWN_EXT:
                         return PS_PARSE_FAIL;
                     }
 
-                    if ((*p & 0xF) == 0)       /* fullName (GeneralNames) */
+                    if (p < extEnd && (*p & 0xF) == 0)       /* fullName (GeneralNames) */
                     {
                         p++;
                         if (getAsnLength(&p, (uint32) (extEnd - p), &len) < 0
@@ -4651,7 +4656,7 @@ KNOWN_EXT:
                             return (rc == PS_MEM_FAIL) ? PS_MEM_FAIL : PS_PARSE_FAIL;
                         }
                     }
-                    else if ((*p & 0xF) == 1)         /* RelativeDistName */
+                    else if (p < extEnd && (*p & 0xF) == 1)         /* RelativeDistName */
                     {
                         p++;
                         /* RelativeDistName not parsed */
@@ -4730,7 +4735,7 @@ KNOWN_EXT:
                 break;
             }
             /* All members are optional */
-            if (*p == (ASN_CONTEXT_SPECIFIC | ASN_PRIMITIVE | 0))
+            if (p < extEnd && *p == (ASN_CONTEXT_SPECIFIC | ASN_PRIMITIVE | 0))
             {
                 p++;
                 if (getAsnLength(&p, (int32) (extEnd - p),
@@ -4749,7 +4754,7 @@ KNOWN_EXT:
                 Memcpy(extensions->ak.keyId, p, extensions->ak.keyLen);
                 p = p + extensions->ak.keyLen;
             }
-            if (*p == (ASN_CONTEXT_SPECIFIC | ASN_CONSTRUCTED | 1))
+            if (p < extEnd && *p == (ASN_CONTEXT_SPECIFIC | ASN_CONSTRUCTED | 1))
             {
                 p++;
                 if (getAsnLength(&p, (int32) (extEnd - p), &len) < 0 ||
@@ -4779,8 +4784,9 @@ KNOWN_EXT:
                     return (rc == PS_MEM_FAIL) ? PS_MEM_FAIL : PS_PARSE_FAIL;
                 }
             }
-            if ((*p == (ASN_CONTEXT_SPECIFIC | ASN_PRIMITIVE | 2)) ||
-                (*p == ASN_INTEGER))
+            if (p < extEnd &&
+                ((*p == (ASN_CONTEXT_SPECIFIC | ASN_PRIMITIVE | 2)) ||
+                 (*p == ASN_INTEGER)))
             {
 /*
                     Treat as a serial number (not a native INTEGER)
@@ -4802,7 +4808,7 @@ KNOWN_EXT:
                 extension of certificates issued by the subject of
                 this certificate.
  */
-            if (*p++ != ASN_OCTET_STRING || getAsnLength(&p,
+            if (p >= extEnd || *p++ != ASN_OCTET_STRING || getAsnLength(&p,
                     (int32) (extEnd - p), &(extensions->sk.len)) < 0 ||
                 (uint32) (extEnd - p) < extensions->sk.len)
             {
@@ -6495,7 +6501,7 @@ static int32_t parseSingleResponse(uint32_t len, const unsigned char **cp,
     psAssert(plen == 0);
     res->certIdHashAlg = oi;
 
-    if ((*p++ != ASN_OCTET_STRING) ||
+    if (p >= end || (*p++ != ASN_OCTET_STRING) ||
         getAsnLength(&p, (int32) (end - p), &glen) < 0 ||
         (uint32) (end - p) < glen)
     {
@@ -6504,7 +6510,7 @@ static int32_t parseSingleResponse(uint32_t len, const unsigned char **cp,
     res->certIdNameHash = p;
     p += glen;
 
-    if ((*p++ != ASN_OCTET_STRING) ||
+    if (p >= end || (*p++ != ASN_OCTET_STRING) ||
         getAsnLength(&p, (int32) (end - p), &glen) < 0 ||
         (uint32) (end - p) < glen)
     {
@@ -6517,8 +6523,9 @@ static int32_t parseSingleResponse(uint32_t len, const unsigned char **cp,
 
         CertificateSerialNumber  ::=  INTEGER
      */
-    if ((*p != (ASN_CONTEXT_SPECIFIC | ASN_PRIMITIVE | 2)) &&
-        (*p != ASN_INTEGER))
+    if (p >= end ||
+        ((*p != (ASN_CONTEXT_SPECIFIC | ASN_PRIMITIVE | 2)) &&
+         (*p != ASN_INTEGER)))
     {
         psTraceCrypto("X.509 getSerialNum failed on first bytes\n");
         return PS_PARSE_FAIL;
@@ -6542,12 +6549,17 @@ static int32_t parseSingleResponse(uint32_t len, const unsigned char **cp,
      */
     Memset(res->revocationTime, 0, sizeof(res->revocationTime));
     res->revocationReason = 0;
-    if (*p == (ASN_CONTEXT_SPECIFIC | ASN_PRIMITIVE | 0))
+    if (p >= end)
+    {
+        psTraceCrypto("SingleResponse without certStatus\n");
+        return PS_PARSE_FAIL;
+    }
+    if (p < end && *p == (ASN_CONTEXT_SPECIFIC | ASN_PRIMITIVE | 0))
     {
         res->certStatus = 0;
         p += 2;
     }
-    else if (*p == (ASN_CONTEXT_SPECIFIC | ASN_CONSTRUCTED | 1))
+    else if (p < end && *p == (ASN_CONTEXT_SPECIFIC | ASN_CONSTRUCTED | 1))
     {
         res->certStatus = 1;
         psTraceCrypto("OCSP CertStatus is revoked.\n");
@@ -6565,7 +6577,7 @@ static int32_t parseSingleResponse(uint32_t len, const unsigned char **cp,
         parseSingleResponseRevocationTimeAndReason(p, glen, res);
         p += glen;
     }
-    else if (*p == (ASN_CONTEXT_SPECIFIC | ASN_PRIMITIVE | 2))
+    else if (p < end && *p == (ASN_CONTEXT_SPECIFIC | ASN_PRIMITIVE | 2))
     {
         res->certStatus = 2;
         p += 2; /* TOOD: Untested parse.  Might be CONSTRUCTED encoding */
@@ -6605,7 +6617,7 @@ static int32_t parseSingleResponse(uint32_t len, const unsigned char **cp,
         {
             return PS_PARSE_FAIL;
         }
-        if (*p == ASN_GENERALIZEDTIME && glen > 2)
+        if (p < end && *p == ASN_GENERALIZEDTIME && glen > 2)
         {
             res->nextUpdate = p + 2;
             res->nextUpdateLen = glen - 2;
@@ -6700,7 +6712,7 @@ static int32_t ocspParseBasicResponse(psPool_t *pool, uint32_t len,
             byKey                [2] KeyHash }
      */
 
-    if (*p == (ASN_CONTEXT_SPECIFIC | ASN_CONSTRUCTED | 1))
+    if (p < end && *p == (ASN_CONTEXT_SPECIFIC | ASN_CONSTRUCTED | 1))
     {
         const unsigned char *p2;
         p++;
@@ -6724,7 +6736,7 @@ static int32_t ocspParseBasicResponse(psPool_t *pool, uint32_t len,
             return PS_PARSE_FAIL;
         }
     }
-    else if (*p == (ASN_CONTEXT_SPECIFIC | ASN_CONSTRUCTED | 2))
+    else if (p < end && *p == (ASN_CONTEXT_SPECIFIC | ASN_CONSTRUCTED | 2))
     {
         p++;
         if (getAsnLength32(&p, (uint32_t) (end - p), &blen, 0) < 0 ||
@@ -6738,7 +6750,7 @@ static int32_t ocspParseBasicResponse(psPool_t *pool, uint32_t len,
                          -- BIT STRING subjectPublicKey [excluding
                          -- the tag, length, and number of unused
                          -- bits] in the responder's certificate) */
-        if ((*p++ != ASN_OCTET_STRING) ||
+        if (p >= end || (*p++ != ASN_OCTET_STRING) ||
             getAsnLength(&p, (int32) (end - p), &glen) < 0 ||
             (uint32) (end - p) < glen ||
             glen != SHA1_HASH_SIZE)
@@ -6810,7 +6822,7 @@ static int32_t ocspParseBasicResponse(psPool_t *pool, uint32_t len,
         }
     }
     /* responseExtensions   [1] EXPLICIT Extensions OPTIONAL } */
-    if (*p == (ASN_CONTEXT_SPECIFIC | ASN_CONSTRUCTED | 1))
+    if (p < end && *p == (ASN_CONTEXT_SPECIFIC | ASN_CONSTRUCTED | 1))
     {
         if (parse_nonce_ext(p, end - p, &res->nonce) != PS_SUCCESS)
         {
@@ -6928,7 +6940,7 @@ static int32_t ocspParseBasicResponse(psPool_t *pool, uint32_t len,
         psTraceCrypto("Error parsing signature in ResponseData\n");
         return PS_PARSE_FAIL;
     }
-    if (*p++ != 0)
+    if (p >= end || *p++ != 0)
     {
         psTraceCrypto("Error parsing ignore bits in ResponseData sig\n");
         return PS_PARSE_FAIL;
@@ -6944,7 +6956,7 @@ static int32_t ocspParseBasicResponse(psPool_t *pool, uint32_t len,
         /* The responder MAY include certificates in the certs field of
             BasicOCSPResponse that help the OCSP client verify the responder's
             signature. */
-        if (*p != (ASN_CONTEXT_SPECIFIC | ASN_CONSTRUCTED | 0))
+        if (p >= end || *p != (ASN_CONTEXT_SPECIFIC | ASN_CONSTRUCTED | 0))
         {
             psTraceCrypto("Unexpected Certificage encoding in OCSPResponse\n");
             return PS_PARSE_FAIL;
